@@ -300,6 +300,7 @@ func checkC13(w *World, r *Report) {
 	checkKindSetsWideEnough(w, r)
 	checkTwinKindsAdvanceAlike(w, r)
 	checkOnlyTheTokenizerFindsTags(w, r)
+	checkKindTablesCoverAllKinds(w, r)
 }
 
 func exprArgs(c *ast.CallExpr) string {
@@ -1554,4 +1555,67 @@ func checkOnlyTheTokenizerFindsTags(w *World, r *Report) {
 		})
 	}
 	r.Counts["searches for tag openers"] = n
+}
+
+// checkKindTablesCoverAllKinds — R13.9: a table indexed by a token's kind has an entry for every
+// kind.  Where an array (a fixed-size table) is indexed by a value read from Token.Type, its length
+// exceeds the largest TOKEN_ constant: a table written out for the undashed kinds only makes the
+// parser panic (index out of range) the first time a `-}}` or `-%}` token reaches that line, so the
+// dash changes whether a template parses.
+func checkKindTablesCoverAllKinds(w *World, r *Report) {
+	maxKind := int64(-1)
+	sc := w.TPkg.Scope()
+	for _, nm := range sc.Names() {
+		if c, ok := sc.Lookup(nm).(*types.Const); ok && strings.HasPrefix(nm, "TOKEN_") && c.Val().Kind() == constant.Int {
+			if v, ok := constant.Int64Val(c.Val()); ok && v > maxKind {
+				maxKind = v
+			}
+		}
+	}
+	n := 0
+	for _, fn := range w.pkgFuncs() {
+		instrsOf(fn, func(in ssa.Instruction) {
+			var x, idx ssa.Value
+			switch y := in.(type) {
+			case *ssa.IndexAddr:
+				x, idx = y.X, y.Index
+			case *ssa.Index:
+				x, idx = y.X, y.Index
+			default:
+				return
+			}
+			var arr *types.Array
+			switch t := x.Type().Underlying().(type) {
+			case *types.Array:
+				arr = t
+			case *types.Pointer:
+				arr, _ = t.Elem().Underlying().(*types.Array)
+			}
+			if arr == nil {
+				return
+			}
+			isKind := false
+			for _, o := range originChain(idx) {
+				if _, ok := fieldLoad(o, "Token", "Type"); ok {
+					isKind = true
+				}
+				if fl, ok := o.(*ssa.Field); ok && isNamed(fl.X.Type(), twigPath, "Token") {
+					if st, ok := fl.X.Type().Underlying().(*types.Struct); ok && st.Field(fl.Field).Name() == "Type" {
+						isKind = true
+					}
+				}
+			}
+			if !isKind {
+				return
+			}
+			n++
+			construct := fmt.Sprintf("table of %d entries indexed by a token kind", arr.Len())
+			if arr.Len() > maxKind {
+				r.ok("R13.9", ssaName(fn), construct, w.posOf(in.Pos()), fmt.Sprintf("covers every kind (largest is %d)", maxKind), true)
+			} else {
+				r.bad("R13.9", ssaName(fn), construct, w.posOf(in.Pos()), fmt.Sprintf("the largest token kind is %d: a token of one of the kinds beyond the table (the whitespace-control delimiters are declared last) makes this index panic, so a template parses without the dash and crashes the parser with it", maxKind))
+			}
+		})
+	}
+	r.Counts["arrays indexed by a token kind"] = n
 }
